@@ -13,8 +13,9 @@ CLAIMED = {
              "program of drawing calls (set_pixel(s) in bounds; draw_iter / fill_contiguous / fill_solid / clear with arbitrary arguments) interleaved "
              "with set_orientation, the write history the reference MIPI-DCS controller decodes from the driver's traffic equals — as an ordered "
              "list — the specification 'rotate clockwise, mirror, shift' of each drawn pixel (induction over programs; central geometric lemma "
-             "by lia per orientation; last-write-wins and 'no other cell changes' are corollaries); lifted to SPI / parallel pins by the C06 / C07 "
-             "transparency theorems. Correspondence: random programs on built-in and external models 1x1..65535x65535, traces decoded by the same controller.",
+             "by lia per orientation; last-write-wins and 'no other cell changes' are corollaries); C01T: the pin-level decoder inverts the SPI and "
+             "8/16-bit parallel transports on every driver trace, so the memory decoded from the PINS is the specified picture (all transports); "
+             "C01E: the same from power-on through Builder::init of every generated built-in model x supported kind x option set. Correspondence: random programs on built-in and external models 1x1..65535x65535, traces decoded by the same controller.",
         note="hand-written model of Display / DrawTarget (src/lib.rs, src/graphics.rs, src/batch.rs); Oracle/Controller.v and Oracle/DrawSpec.v are the specification.",
         tech="machine-checked proof in Coq (induction over programs, lia per orientation) + differential correspondence", ref="DESIGN.md §5 C01"),
     "C02": dict(
